@@ -30,6 +30,14 @@ from sasmodels.kerneldll import DllModel
 
 OBJ = np.dtype(object)
 
+# details.convert_magnetism applies numpy's radians/sin/cos to the value vector;
+# on a mixed object array (floats and proxies) numpy's object loop needs the
+# method on every element, so the three names are shimmed elementwise.
+from . import npshim as _npshim
+sdetails.radians = _npshim.NpShim.radians
+sdetails.sin = _npshim.NpShim.sin
+sdetails.cos = _npshim.NpShim.cos
+
 
 def live_constant(name):
     """Value of a ``#define NAME number`` in the live kernel_header.c."""
@@ -230,8 +238,9 @@ def sym_mesh(info, lengths, dim, tag="", magnetic=False, free_sld_pd=False):
         n = lengths.get(p.id, 1)
         is_kernel_par = 2 <= i < 2 + npars
         active = p.polydisperse and (dim == "2d" or p.type != "orientation")
-        if i >= 2 + npars and not magnetic:
+        if i >= 2 + npars and (not magnetic or (magnetic is not True and p.id not in magnetic)):
             # magnetic block: up_frac_i, up_frac_f, up_theta, up_phi, then (M0, mtheta, mphi)...
+            # (magnetic=True: all symbolic; magnetic=set of ids: those symbolic, others default)
             v = _mag_default(p)
         if not is_kernel_par or not active:
             if p.type == "orientation" and is_kernel_par:
@@ -311,7 +320,7 @@ def valid_ref(expr, env):
 class Reference:
     """Reference accumulators for one kernel request, as z3 terms."""
 
-    def __init__(self, km, mesh, q, cutoff, mode, dim, translate=None):
+    def __init__(self, km, mesh, q, cutoff, mode, dim, translate=None, magnetic=False):
         info = km.info
         pars = info.parameters
         npars = pars.npars
@@ -370,6 +379,19 @@ class Reference:
             iqargs = self._args(km.base.iq_parameters, xb)
             pt = {"multi": multi, "x": x, "w": w, "gate": gate, "leaf": [], "leaf1": [],
                   "vf": vf, "vs": vs, "r": r}
+            if magnetic and dim == "2d":
+                for j in range(nq):
+                    qx, qy = term(q[2 * j]), term(q[2 * j + 1])
+                    f2 = z3.RealVal(0)
+                    for wc, xc in self._spin_channels(info, vals, x, qx, qy, c180):
+                        xcb = translate(xc) if translate else xc
+                        f2 = f2 + wc * self._iq2d(km, qx, qy, self._args(km.base.iq_parameters, xcb),
+                                                  xc, jitter, xcb, c180)
+                    F2[j] = F2[j] + g(w * f2)
+                    pt["leaf"].append(f2)
+                    pt["leaf1"].append(None)
+                self.points.append(pt)
+                continue
             for j in range(nq):
                 if dim == "1d":
                     qj = term(q[j])
@@ -390,6 +412,51 @@ class Reference:
         self.F2, self.F1 = F2, (F1 if have_fq else None)
         self.W, self.WVf, self.WVs, self.WR = W, WVf, WVs, WR
         self.have_fq = have_fq
+
+    def _spin_channels(self, info, vals, x, qx, qy, c180):
+        """Documented polarised cross sections: [(weight, parameter set with every SLD
+        replaced by the channel's effective SLD)].  M_perp = M - q (q.M)/(q.q),
+        P, e1, e2 from the polarisation polar angles, weights (1-i)(1-f), (1-i)f,
+        i(1-f), i f over max(f, 1-f) with i, f clipped to [0,1]."""
+        pars = info.parameters
+        npars = pars.npars
+        m0 = 2 + npars
+        zero, one = z3.RealVal(0), z3.RealVal(1)
+        clip = lambda v: z3.If(v < 0, zero, z3.If(v > 1, one, v))
+        i, f = clip(vals[m0]), clip(vals[m0 + 1])
+        uth, uph = vals[m0 + 2], vals[m0 + 3]
+        norm = z3.If(f < symx.rat(0.5), 1 - f, f)
+        w_dd, w_du = (1 - i) * (1 - f) / norm, (1 - i) * f / norm
+        w_ud, w_uu = i * (1 - f) / norm, i * f / norm
+        sth, cth = ufr("sin", uth * c180), ufr("cos", uth * c180)
+        sph, cph = ufr("sin", uph * c180), ufr("cos", uph * c180)
+        P = (sth * cph, sth * sph, cth)
+        e1 = (-sph, cph, zero)
+        e2 = (-cth * cph, -cth * sph, sth)
+        slds = [p for p in pars.call_parameters[2:2 + npars] if p.type == "sld"]
+        qq = qx * qx + qy * qy
+        mperp = {}
+        for k, p in enumerate(slds):
+            M0, mth, mph = vals[m0 + 4 + 3 * k: m0 + 7 + 3 * k]
+            s1, c1 = ufr("sin", mth * c180), ufr("cos", mth * c180)
+            s2, c2 = ufr("sin", mph * c180), ufr("cos", mph * c180)
+            M = (M0 * s1 * c2, M0 * s1 * s2, M0 * c1)
+            # q_hat = q/|q|;  M_perp = M - q_hat (q_hat . M)
+            qn = ufr("sqrt", qq)
+            qhx, qhy = qx / qn, qy / qn
+            qm = qhx * M[0] + qhy * M[1]
+            mperp[p.id] = (M[0] - qhx * qm, M[1] - qhy * qm, M[2])
+        dot = lambda a, b: a[0] * b[0] + a[1] * b[1] + a[2] * b[2]
+        out = []
+        for wc, fn in ((w_dd, lambda rho, m: rho - dot(P, m)), (w_du, lambda rho, m: dot(e1, m)),
+                       (w_ud, lambda rho, m: dot(e1, m)), (w_uu, lambda rho, m: rho + dot(P, m)),
+                       (w_du, lambda rho, m: -dot(e2, m)), (w_ud, lambda rho, m: dot(e2, m))):
+            xc = dict(x)
+            for p in slds:
+                xc[p.id] = fn(x[p.id], mperp[p.id])
+            out.append((wc, xc))
+        self.channel_weights = [w_dd, w_du, w_ud, w_uu]
+        return out
 
     @staticmethod
     def _valid_text(info):
